@@ -212,6 +212,32 @@ def float_supplements(ctx, rng):
                 res = sum(fa[rod.nodalDOF_r_u[node]] for node in range(rod.nnodes_r))
                 if not (np.max(np.abs(res)) <= 1e-9 * (1 + np.max(np.abs(fa)))):
                     ctx.violation(f"{name}:resultant", f"the internal nodal forces have the resultant {res.tolist()}", where2)
+                # tiny strains: states a hair away from the reference (relative comparisons: nothing is "small enough to be zero").  The internal forces
+                # are linear in the perturbation to first order, invariant under translations, and the energy is objective at every magnitude
+                delta = np.zeros_like(Qr)
+                for node in range(rod.nnodes_r):
+                    delta[rod.nodalDOF_r[node]] = np.array([rng.uniform(-1, 1) for _ in range(3)])
+                fref = forces(Qr + 1e-3 * delta) / 1e-3
+                for eps in (1e-5, 1e-6, 1e-8):
+                    qs = Qr + eps * delta
+                    where4 = dict(where, state=f"reference + {eps:g} * (random nodal displacements)")
+                    fs = forces(qs)
+                    if not (np.max(np.abs(fs / eps - fref)) <= 2e-2 * np.max(np.abs(fref))):
+                        ctx.violation(f"{name}:tiny-strain:forces", f"the internal forces are not proportional to a tiny displacement from the reference: forces / {eps:g} differ from "
+                                      f"forces / 1e-3 by {np.max(np.abs(fs / eps - fref)):.3e} (scale {np.max(np.abs(fref)):.3e})", where4)
+                        break
+                    qst, _ = move(rod, qs, np.array([1.0, 0, 0, 0]), d)
+                    fst = forces(qst)
+                    if not (np.max(np.abs(fs - fst)) <= 1e-5 * np.max(np.abs(fs)) + 1e-14 * eps):
+                        ctx.violation(f"{name}:tiny-strain:translation:forces", f"the internal forces of a state {eps:g} away from the reference change under a translation "
+                                      f"(max diff {np.max(np.abs(fs - fst)):.3e}, scale {np.max(np.abs(fs)):.3e})", where4)
+                        break
+                    if not mixed and hasattr(rod, "E_pot"):
+                        qsm, _ = move(rod, qs, Q0, d)
+                        Ea, Eb = rod.E_pot(t, qs.copy()), rod.E_pot(t, qsm.copy())
+                        if not (abs(Ea - Eb) <= 1e-4 * max(abs(Ea), abs(Eb)) + 1e-12 * eps * eps):
+                            ctx.violation(f"{name}:tiny-strain:objectivity:E_pot", f"the strain energy of a state {eps:g} away from the reference changes under a rigid motion: {Ea} -> {Eb}", where4)
+                            break
                 # history: the rod is given another stress-free reference (after it has been evaluated): that one is stress free as well
                 with warnings.catch_warnings():
                     warnings.simplefilter("ignore")
